@@ -170,29 +170,55 @@ func renderReport(me *modules.ModuleError) *Report {
 	return r
 }
 
+func (c *child) taskOf(id int) *modules.Task {
+	c.mu.Lock()
+	defer c.mu.Unlock()
+	return c.tasks[id]
+}
+
 // workFn builds the function body of a work item.
 func (c *child) workFn(mod string, w *Work) func(ctx context.Context) error {
 	return func(ctx context.Context) error {
 		n := atomic.AddInt32(c.beganN[w.ID], 1)
 		c.rec(Event{Kind: "work-begin", Mod: mod, ID: w.ID, Info: fmt.Sprintf("%s run=%d", w.Kind, n), CtxDone: ctx.Err() != nil})
-		if n == 1 {
+		if int(n) == w.Requeue+1 {
 			close(c.began[w.ID])
 		}
 		defer func() {
 			c.rec(Event{Kind: "work-end", Mod: mod, ID: w.ID, Info: w.Kind})
 			atomic.AddInt32(c.ended[w.ID], 1)
 		}()
+		if int(n) <= w.Requeue {
+			// an earlier, short run of a task that is queued again
+			hold(300)
+			if t := c.taskOf(w.ID); t != nil {
+				t.Queue()
+			}
+			return nil
+		}
 		if w.Mode == "waitctx" {
 			<-ctx.Done()
 			hold(w.DelayUS)
 		} else {
 			hold(w.HoldUS)
 		}
-		if w.Panic != "" && int(n) <= w.PanickingRuns() {
+		if w.Panic != "" && int(n)-w.Requeue <= w.PanickingRuns() {
 			PanicNow(w.Panic)
 		}
 		if w.Fail && n == 1 {
 			return fmt.Errorf("work item %d fails on purpose", w.ID)
+		}
+		if w.Kind == "service" {
+			switch w.Returns {
+			case "restartnow":
+				if n <= 3 {
+					return fmt.Errorf("work item %d asks for a restart: %w", w.ID, modules.ErrRestartNow)
+				}
+			case "ctxcanceled":
+				return context.Canceled
+			case "error":
+				return fmt.Errorf("work item %d fails in every run", w.ID)
+			}
 		}
 		return nil
 	}
@@ -227,11 +253,15 @@ func (c *child) launch(mod string, w *Work) {
 		m.StartServiceWorker(name, backoff, fn)
 	case "task":
 		t := m.NewTask(name, func(ctx context.Context, _ *modules.Task) error { return fn(ctx) })
+		c.mu.Lock()
 		c.tasks[w.ID] = t
+		c.mu.Unlock()
 		t.Queue()
 	case "schedtask":
 		t := m.NewTask(name, func(ctx context.Context, _ *modules.Task) error { return fn(ctx) })
+		c.mu.Lock()
 		c.tasks[w.ID] = t
+		c.mu.Unlock()
 		t.Schedule(time.Now().Add(2 * time.Millisecond))
 	case "run_mt_high":
 		go func() { c.recReturn(mod, w, m.RunHighPriorityMicroTask(name, fn)) }()
@@ -338,13 +368,31 @@ func RunChild(sc *Scenario) *Result {
 		modules.SetErrorReportingChannel(reports)
 	}
 	var repWg sync.WaitGroup
-	repWg.Add(1)
-	go func() {
-		defer repWg.Done()
-		for me := range reports {
-			c.rec(Event{Kind: "report", Mod: me.ModuleName, Info: me.TaskName, Report: renderReport(me)})
+	drainLate := func() {}
+	if sc.ReportsCap > 0 && !sc.UnbufferedReports {
+		reports = make(chan *modules.ModuleError, sc.ReportsCap)
+		if !sc.NoReports {
+			modules.SetErrorReportingChannel(reports)
 		}
-	}()
+		drainLate = func() {
+			for {
+				select {
+				case me := <-reports:
+					c.rec(Event{Kind: "report", Mod: me.ModuleName, Info: me.TaskName, Report: renderReport(me)})
+				default:
+					return
+				}
+			}
+		}
+	} else {
+		repWg.Add(1)
+		go func() {
+			defer repWg.Done()
+			for me := range reports {
+				c.rec(Event{Kind: "report", Mod: me.ModuleName, Info: me.TaskName, Report: renderReport(me)})
+			}
+		}()
+	}
 
 	// registration
 	for i := range sc.Modules {
@@ -403,10 +451,27 @@ func RunChild(sc *Scenario) *Result {
 		}
 		switch st.Op {
 		case "start":
+			// st.US management passes are requested by other goroutines while Start runs (a config hook, the notify
+			// function): they wait for Start or run before it, never in the middle of its phases
+			var conc sync.WaitGroup
+			concErr := make([]error, st.US)
+			for k := 0; k < st.US; k++ {
+				conc.Add(1)
+				go func(k int) {
+					defer conc.Done()
+					hold(1 + k*400)
+					concErr[k] = modules.ManageModules()
+				}(k)
+			}
 			t0 := time.Now()
 			err := modules.Start()
 			startFailed = err != nil
 			c.snapshot("start", err, time.Since(t0))
+			drainLate()
+			conc.Wait()
+			for k := 0; k < st.US; k++ {
+				c.snapshot("manage-concurrent", concErr[k], 0)
+			}
 		case "enable":
 			for _, n := range st.Mods {
 				c.mods[n].Enable()
@@ -421,6 +486,7 @@ func RunChild(sc *Scenario) *Result {
 			t0 := time.Now()
 			err := modules.ManageModules()
 			c.snapshot("manage", err, time.Since(t0))
+			drainLate()
 		case "launch", "relaunch":
 			// relaunch: only modules that have been started again since their work was last launched (a module that
 			// stayed online as a dependency still runs its first set of items)
@@ -679,6 +745,7 @@ func RunChild(sc *Scenario) *Result {
 			t0 := time.Now()
 			err := modules.Shutdown()
 			c.snapshot("shutdown", err, time.Since(t0))
+			drainLate()
 			extra.Wait()
 			shutdownDone = true
 		}
@@ -713,6 +780,7 @@ func RunChild(sc *Scenario) *Result {
 		c.rec(Event{Kind: "last-report", Mod: me.ModuleName, Info: me.TaskName, Report: renderReport(me)})
 	}
 	modules.SetErrorReportingChannel(nil)
+	drainLate()
 	close(reports)
 	repWg.Wait()
 
